@@ -327,27 +327,33 @@ CHECKS["C07"] = dict(
 CHECKS["C10"] = dict(
     category="model_checking",
     text="QBFTTimely.tla restricts QBFT.tla to executions that respect the timing assumptions (global round clock; every "
-         "message is delivered before the round's deadline; at the deadline the timers of all undecided operators become "
-         "due and fire in any order interleaved with deliveries; <= f silent members; optionally a faulty but timely member) "
-         "and states the reject-class rules of the gossip gate as conditions on what correct operators emit: proposals "
-         "are stamped with a round their signer leads, per signer and round all attached full data agree (also across "
-         "the members of a decided certificate), proposals carry a justification the gate's IsProposalJustification "
-         "accepts. TLC checks NoHonestReject exhaustively for a silent member / silent leader in every rotation (<= 4 "
-         "rounds; fault-free and faulty-but-timely classes in thorough). Timely behaviours of all five roles are replayed "
-         "on real controllers, and EVERY broadcast of a correct operator (incl. the aggregated decided messages of "
-         "Controller.broadcastDecided) is handed to the real messageValidator of every other correct peer at a virtual "
-         "time inside the round of its emission (three positions inside the round, re-based-genesis clock): class reject "
-         "is a violation, in fault-free in-order runs anything but accept is. Two further replay classes feed the real gate: "
-         "lossy behaviours (a message may miss its round at some recipients; pruned by the spec's own reject rules, not part "
-         "of the exhaustive claim) and guided scenarios of the faithful spec (e.g. a round-change quorum with mixed "
-         "prepared rounds completed by the lower-prepared member).",
+         "message is delivered before the round's deadline; at the deadline the timers of all undecided operators fire in any "
+         "order interleaved with deliveries; <= f silent members; optionally late leaders (LateRounds) or a faulty but timely "
+         "member) and states the gate's reject-class rules for consensus messages as conditions on what correct operators emit "
+         "(leader stamp, one full data per signer and round also across decided certificates, justifications). "
+         "PartialTimely.tla does the same for the partial-signature messages of one duty of all seven roles (pre-consensus "
+         "randao / selection / contribution proofs / registration / exit, macro consensus decided in any round up to the role's "
+         "maximum, post-consensus): type known and matching the role, signer consistency, no repeated root, <= 13 signatures "
+         "(size limit), duty count; plus the ignore-class rules for the fault-free accept claim. TLC checks both exhaustively "
+         "(committee 4: every leader rotation; committee 7: two silent members and the partial-signature spec exhaustively, the "
+         "other classes in time boxes). Behaviours are replayed on real controllers (committees 4 and 7; silent "
+         "leader(s)/member(s), fault-free, late leaders up to round 12 / 6 and one round beyond, lossy class, guided scenarios) "
+         "and on real validators with the real duty runners of every role (duty world); EVERY broadcast of a correct operator "
+         "(consensus, decided, pre- and post-consensus partial signatures) goes to the real messageValidator of every other "
+         "correct peer at virtual times inside its window (three positions per round by the real round-timer arithmetic; slot "
+         "window probed on the gate; duty world also in reverse order): class reject is a violation, in fault-free in-order "
+         "runs anything but accept is.",
     design_ref="DESIGN.md section 5 C10, section 10.3",
-    note="Committee 4; consensus messages and aggregated decided messages (partial-signature messages of the duty runners "
-         "are not part of this check); the gate is driven through ValidateSSVMessage (bare SSV message, pre-fork era); "
-         "known finding: a proposal stamped with the stale round of an adopted decided certificate is rejected as "
-         "'signer is not leader'.",
-    technique="TLA+ timely-class spec with the gate's reject rules as emitter-side invariants + TLC exhaustive check; "
-              "behaviours replayed on real controllers with a real peer validator on every broadcast",
+    note="Committees 4 and 7; gate driven through ValidateSSVMessage (bare SSV message, pre-fork era). Committee-7 QBFT classes "
+         "beyond two silent members are explored in time boxes and by simulation, not exhaustively; one duty per runner (no slot "
+         "advance between duties); <= 4 signatures per message; the lossy class is outside the property's premise for the "
+         "exhaustive claim and only feeds the real gate. Known findings: a proposal stamped with the stale round of an adopted "
+         "decided certificate is rejected as 'signer is not leader'; the contribution-proof message of a validator with two "
+         "sync-committee positions in one subcommittee carries one root twice and is rejected as 'duplicated partial signature "
+         "message'.",
+    technique="TLA+ timely-class specs (consensus and partial-signature messages) with the gate's reject rules as emitter-side "
+              "invariants + TLC exhaustive check; behaviours replayed on real controllers / real validators and duty runners "
+              "with a real peer validator on every broadcast",
 )
 CHECKS["C17"] = dict(
     category="model_checking",
